@@ -17,6 +17,7 @@ var clientEntryPoints = []string{
 
 func init() {
 	register("C09", func(c *core.Ctx, tier string) {
+		constructorChain(c, "C09.10")
 		c09Panics(c)
 		c09UncheckedAssertions(c)
 		c09ConnWritesLocked(c)
@@ -24,6 +25,7 @@ func init() {
 		c09DecodedPointers(c)
 		c09NilContradiction(c)
 		c09CloseOnce(c)
+		c09AcceptTimerCoversHandshake(c)
 		c09EventSignatures(c)
 		answerOrPark(c, "C09.5", false)
 		c09OnRequestImplementations(c, "C09.5b")
@@ -956,4 +958,38 @@ func c09CloseOnce(c *core.Ctx) {
 		}
 	}
 	c.Need(R, "close(field channel) sites", n, 2)
+}
+
+// c09AcceptTimerCoversHandshake — C09.6b: the only thing that releases an
+// OnWebTransportSession handler blocked on a silent peer is the accept timer.
+func c09AcceptTimerCoversHandshake(c *core.Ctx) {
+	const R = "C09.6b"
+	c.Rule(R, "the WebTransport accept timer covers the whole first frame: in OnWebTransportSession no blocking read of the handshake (AcceptStream, NextReader, ReadFrom(message)) can execute after ClearTimeout(timeout) — a peer that sends a frame header and then stays silent would otherwise pin the handler goroutine, the session and the stream for ever")
+	u := c.Fn(R, srvOnWT)
+	if u == nil {
+		return
+	}
+	g := u.Graph()
+	var clears []*core.Call
+	for _, cl := range u.CallsTo(clearTOKey) {
+		clears = append(clears, cl)
+	}
+	if !c.Exists(R, srvOnWT+"/ClearTimeout(accept timer)", u.Pos(), len(clears) >= 1, "the accept timer is cancelled once the first frame has been read") {
+		return
+	}
+	n := 0
+	for _, cl := range u.Calls() {
+		if cl.Name != "AcceptStream" && cl.Name != "NextReader" && cl.Name != "ReadFrom" {
+			continue
+		}
+		n++
+		late := false
+		for _, k := range clears {
+			if g.CanFollow(k.Loc, cl.Loc) {
+				late = true
+			}
+		}
+		c.Check(R, keyf("%s/%s-under-the-accept-timer", srvOnWT, cl.Name), cl.Pos(), !late, "this blocking read cannot run after the accept timer was cancelled")
+	}
+	c.Need(R, "blocking reads of the WebTransport handshake", n, 4)
 }
